@@ -103,7 +103,11 @@ def consumeTag (bs : Bytes) : Res (Nat × Nat × Bytes) :=
 
 mutual
 /-- `protowire.consumeFieldValueD`: returns the input remaining after the value. `depth` is the remaining
-    recursion budget (protowire.DefaultRecursionLimit = 10000); `fuel` is a structural bound (≥ input length + 1). -/
+    recursion budget; `fuel` is a structural bound (≥ input length + 1).
+    protowire starts with DefaultRecursionLimit = 10000 and refuses a start-group only when the budget is NEGATIVE
+    (`if depth < 0`), so 10001 nested groups are accepted and 10002 refused; with a natural-number budget that
+    refuses at 0 this is a start value of 10001 (callers: `consumeField`, the reference decoder's unknown path).
+    Found by the group-depth boundary pass of the runtime engine (model said `err` at 10001 levels). -/
 def consumeValue : (fuel : Nat) → (depth : Nat) → (num typ : Nat) → Bytes → Res Bytes
   | 0, _, _, _, _ => .err .eof
   | fuel+1, depth, num, typ, bs =>
@@ -143,7 +147,7 @@ end
 def consumeField (bs : Bytes) : Res Nat :=
   match consumeTag bs with
   | .ok (num, typ, rest) =>
-    match consumeValue (2 * bs.length + 2) 10000 num typ rest with
+    match consumeValue (2 * bs.length + 2) 10001 num typ rest with
     | .ok rest2 => .ok (bs.length - rest2.length)
     | .err e => .err e
     | .panic => .panic
